@@ -17,7 +17,7 @@ ASSUMPTIONS = [
 ]
 
 # mie: 1e-8 = 5 x eps / sqrt(ACCUR) of SBESJY (see C04); ms: 3 sqrt(eps) of its stopping rule; tmatrix: angle nudges
-TOL = {"mie": 1e-8, "ms": 2e-3, "tmatrix": 3e-5, "mielens": 1e-10, "amielens": 1e-10, "lens": 1e-10, "lens_tm": 3e-5, "lens_ms": 2e-3}
+TOL = {"auto": 2e-3, "mie": 1e-8, "ms": 2e-3, "tmatrix": 3e-5, "mielens": 1e-10, "amielens": 1e-10, "lens": 1e-10, "lens_tm": 3e-5, "lens_ms": 2e-3}
 KINDS = ["sphere", "layered", "cluster_mie", "cluster_ms", "spheroid", "cylinder", "mielens", "amielens", "lens"]
 
 
@@ -37,6 +37,15 @@ def _scene(kd):
         return gen.scene_cluster("ms").map(lambda s: dict(s, th=dict(s["th"], tight=True)))
     if kd in ("spheroid", "cylinder"):
         return gen.scene_axisym(kd)
+    if kd == "cluster_auto":
+        # theory left to the library: 2-3 small equal spheres whose farthest pair sits 24-48 radii apart, i.e. on
+        # both sides of the 30-radius rule that selects Multisphere or Mie superposition
+        mem = st.fixed_dictionaries({"x": st.just(0.4), "m": gen.rel_index(False, 1.1, 1.8),
+                                     "dir": st.tuples(st.floats(0.9, math.pi - 0.9), st.floats(0, 2 * math.pi)).map(list),
+                                     "dist": st.floats(12.0, 24.0)})
+        return st.fixed_dictionaries({"kind": st.just("cluster"), "mem": st.lists(mem, min_size=2, max_size=3),
+                                      "pl": st.fixed_dictionaries({"fx": gen.rounded(0, 1, 3), "fy": gen.rounded(0, 1, 3), "kgap": st.floats(40.0, 120.0)}),
+                                      "th": st.just({"t": "auto"})})
     if kd == "lens_tm":
         ang = st.floats(0.0, math.pi)
         return st.fixed_dictionaries({"kind": st.sampled_from(["spheroid", "cylinder"]), "xv": gen.size_param(0.5, 4.0),
@@ -60,7 +69,7 @@ def _scene(kd):
 
 def strat(tier):
     opts = []
-    for kd in KINDS + ["lens_tm", "lens_ms", "lens_cluster_mie"]:
+    for kd in KINDS + ["lens_tm", "lens_ms", "lens_cluster_mie", "cluster_auto"]:
         pol = st.just([1.0, 0.0]) if kd in ("spheroid", "cylinder") else None
         opts.append(st.fixed_dictionaries({"o": gen.optics(True, pol=pol), "det": _points_det(), "sc": _scene(kd)}))
     ang = st.one_of(st.floats(0, 2 * math.pi), st.floats(0, 2 * math.pi),
@@ -163,6 +172,14 @@ def run(case):
         s2 = transform_scatterer(s, fc, axis_map=lambda u: M @ u)
         pol2 = pol
         Mvec = M
+    if tk == "auto":
+        # the library's own choice of theory must not depend on how the configuration sits in the frame
+        from holopy.scattering.interface import determine_default_theory_for
+        ta, tb = type(determine_default_theory_for(s)).__name__, type(determine_default_theory_for(s2)).__name__
+        labels.append("auto_" + ta)
+        if ta != tb:
+            return Outcome(failure("auto_choice_not_covariant", "theory='auto' picks %s for the configuration and %s for the same configuration after the %s" % (ta, tb, op),
+                                   op=op), True, labels)
     d1 = hp.detector_points(x=P[:, 0], y=P[:, 1], z=P[:, 2])
     d2 = hp.detector_points(x=P2[:, 0], y=P2[:, 1], z=P2[:, 2])
     if int_coords:
